@@ -21,7 +21,8 @@ CONSTANTS MaxQ,        \* bound on the length of the external queue
           MaxMFail,    \* monitor-failure positions 0..MaxMFail are injected
           MaxLevel,    \* bound on the length of behaviours
           EmitEdges,   \* print one replayable test per edge
-          Twin         \* "" | "ignore": also run the twin of every call (relational properties)
+          Twin,        \* "" | "ignore": also run the twin of every call (relational properties)
+          ExecMany     \* also explore Interpreter.execute(max_steps) as the last call of a behaviour
 
 VARIABLES ci, S, clk, G, dead, last, hist
 vars == <<ci, S, clk, G, dead, last, hist>>
@@ -123,7 +124,23 @@ ExecuteOnce(orc) ==
         /\ hist' = Append(hist, HEntry("exec", 0, 0, 0, 0, orc))
   /\ UNCHANGED ci
 
+(* Interpreter.execute(max_steps=mx), mx >= 1 (a step oracle that keeps an eventless transition enabled would make an
+   unbounded execute() run forever): only as the last call of a behaviour (the ghost is per execute_once) *)
+ExecuteAll(orc, mx) ==
+  /\ ~dead /\ Len(hist) >= 2
+  /\ LET A  == ExecuteMany(c, Opt, orc, S, clk, mx)
+         S1 == MaskS(c, A.S)
+         o  == [Obs("execute", mx, 0, 0, orc, clk, S, S1, A) EXCEPT !.eidx = A.n]
+     IN /\ S' = S1
+        /\ clk' = A.clk
+        /\ last' = o
+        /\ G' = G
+        /\ dead' = TRUE
+        /\ hist' = Append(hist, [HEntry("execute", mx, 0, 0, 0, orc) EXCEPT !.ev = mx])
+  /\ UNCHANGED ci
+
 Next ==
+  \/ (ExecMany /\ \E gv \in GVs, mx \in {1, 2, 3} : ExecuteAll([gv |-> gv, cfail |-> 0, mfail |-> 0], mx))
   \/ \E e \in Range(c.events), p \in Params, dl \in Delays : Queue(e, p, dl)
   \/ \E d \in Advances : Advance(d)
   \/ \E gv \in GVs, f \in {<<0, 0>>} \cup ((1..MaxCFail) \X {0}) \cup ({0} \X (1..MaxMFail)) :
